@@ -707,6 +707,43 @@ def job_bounded_modules(tier, rng):
                             ok_ = ok_ and R.shape == x.shape and all(_herm_psd_tr1(m_, n_, 1e-9) for m_ in R.reshape(-1, n_, n_))
                         return ok_
                     chk(safe(fsym), cls='symmetric_matrix_to_trace1PSD', dtype=dt, n=n_, batch=bshape)
+        # option branches found by the coverage sweep: weighted simplex, batched composite classes, default ensemble size / Choi rank
+        if real:
+            for method in ('softmax', 'sphere'):
+                for bs in (None, 3):
+                    def fw():
+                        wgt = rng.uniform(0.2, 3.0, size=4)
+                        R = _tnp(M.DiscreteProbability(4, batch_size=bs, method=method, weight=wgt, dtype=dt)())
+                        return R.min() >= 0 and np.abs((R * wgt).sum(axis=-1) - 1).max() < tol * 10         # sum_i w_i p_i = 1
+                    chk(safe(fw), cls='DiscreteProbability(weight)', method=method, dtype=dt, batch=bs)
+        for dA, dB, bs in [(2, 3, 2), (2, 2, 3)]:
+            def fsepb():
+                m = M.SeparableDensityMatrix(dA, dB, num_cha=None if bs == 2 else 4, batch_size=bs, dtype=dt)
+                R = _tnp(m()).astype(np.complex128)
+                ok_ = R.shape == (bs, dA, dB, dA, dB)
+                for x in R:
+                    x = x.reshape(dA * dB, dA * dB)
+                    pt = x.reshape(dA, dB, dA, dB).transpose(0, 3, 2, 1).reshape(dA * dB, dA * dB)
+                    ok_ = ok_ and _herm_psd_tr1(x, dA * dB, tol) and np.linalg.eigvalsh((pt + pt.conj().T) / 2).min() > -tol * 10
+                return ok_
+            chk(safe(fsepb), cls='SeparableDensityMatrix(batch)', dtype=dt, dimA=dA, dimB=dB, batch=bs)
+        if not real:
+            for bs in (None, 2):
+                for rk in ('kraus', 'choi'):
+                    def fchb():
+                        din, dout = 2, 2
+                        m = M.QuantumChannel(din, dout, choi_rank=None, batch_size=bs, method='qr', return_kind=rk, dtype=dt)
+                        R = _tnp(m()).astype(np.complex128)
+                        R = R.reshape((1,) + R.shape) if bs is None else R
+                        ok_ = R.shape[0] == (1 if bs is None else bs)
+                        for x in R:
+                            if rk == 'kraus':
+                                ok_ = ok_ and x.shape == (din * dout, dout, din) and np.abs(sum(k.conj().T @ k for k in x) - np.eye(din)).max() < tol * 100
+                            else:
+                                C = x.reshape(dout * din, dout * din)
+                                ok_ = ok_ and np.abs(np.einsum(C.reshape(dout, din, dout, din), [0, 1, 0, 2], [1, 2]) - np.eye(din)).max() < tol * 100 and np.linalg.eigvalsh((C + C.conj().T) / 2).min() > -tol * 100
+                        return ok_
+                    chk(safe(fchb), cls='QuantumChannel(batch/default rank)', dtype=dt, batch=bs, return_kind=rk)
         # composite classes
         for dA, dB in [(2, 2), (2, 3)]:
             def fsep():
